@@ -9,6 +9,7 @@ import CruxVerif.Lemmas.K2
 import CruxVerif.Lemmas.Refs
 import CruxVerif.Lemmas.OwnRun
 import CruxVerif.Lemmas.GRun
+import CruxVerif.Lemmas.GCoreHosts
 namespace Props.C02
 open M.Rt
 
@@ -238,9 +239,29 @@ example : ∃ os d, M.Hosts.runDirect (.mapEv 0 (.req 1 (.lit 0) 1)) false [] = 
     cmdHF (.mapEv 0 (.req 1 (.lit 0) 1)) = true ∧ (d.w.cmds.map (cmdCnt 0)).sum = 1 ∧ d.w.cmds.length = 2 := by
   refine ⟨_, _, rfl, rfl, ?_, ?_⟩ <;> decide
 
-/-! Not proved here: the same invariant for the Core and Bridge hosts (`Core::process_event` / `resolve`, the bridge's
-    registry), which add a registry and effect queue around the same executor; those are covered by the correspondence
-    check (unique payloads, look-alike operations) and listed under `stated_not_proved` in the evidence. -/
+/-- UNDER THE CORE HOST: for every app whose commands have host-free task bodies (any nesting of combinators) and whose legacy
+    capability tasks are host-free, after EVERY history of events, resolutions, drops, aborts and probes, every request
+    channel is referenced by AT MOST ONE suspended or queued task — summed over all commands of the world (at any hosting
+    depth, slabs and spawn queues), the QueuingExecutor's legacy tasks and its spawn queue — and no task references a
+    channel that does not exist. Invariant `CInv` (Lemmas/XFrame, CoreFrame, GCore, GCoreHosts ≈ 900 lines): the executor's
+    run_all / run_task, the CommandSpawner loop, `update` + spawn, the event loop, resolve / drop / abort from the shell. -/
+theorem channels_unshared_under_core (prog : M.Hosts.Prog) (hp : progHF prog) (canon : Bool) (acts : List M.Hosts.Action)
+    (os : List M.Hosts.Obs) (h : M.Hosts.CoreHost) (hr : M.Hosts.runCore prog canon acts = some (os, h)) (l : Nat) :
+    (h.k.w.cmds.map (cmdCnt l)).sum + ecnt l h.k.execTasks.values + ecnt l h.k.w.execSpawn
+      ≤ (if l < h.k.w.leaves.length then 1 else 0) := by
+  have := (M.Hosts.runCore_c prog hp canon acts os h hr).bound l
+  unfold E bnd G at this
+  omega
+
+/-- non-vacuity: an app satisfying `progHF` with a nested command and a legacy task -/
+example : progHF [(1, .andC (.req 1 (.lit 0) 1) (.mapEv 0 (.req 2 (.lit 0) 2)), [[.req 1 3 (.lit 0)]])] := by
+  intro p hp
+  simp only [List.mem_singleton] at hp
+  subst hp
+  exact ⟨rfl, by intro is his; simp only [List.mem_singleton] at his; subst his; rfl⟩
+
+/-! Not proved here: the same invariant for the Bridge host (the bridge's registry around the same Core); covered by the
+    correspondence check (unique payloads, look-alike operations). -/
 
 example : (resolveReq (.once 0) 5 { leaves := [{}] }).2.1 = .ok := by decide
 example : (resolveReq (.many 0) 5 { leaves := [{ receiverAlive := false }] }).2.1 = .finished := by decide
